@@ -1104,6 +1104,10 @@ class Executor:
             return self.call(fv.func, st, list(fv.args) + list(args), kwargs, node)
         if isinstance(fv, Opaque):
             return self.env.call_stub(self, st, StubV("opaque.%s.__call__" % fv.tag, fv), args, kwargs, node)
+        if isinstance(fv, Ref) and isinstance(st.obj(fv), HObj):
+            aq = "abstract:%s.__call__" % st.obj(fv).cls
+            if aq in self.env.abstract_registry():
+                return self.call_func(FuncV(aq, fv), st, args, kwargs, node)
         raise Unsupported("call of %r" % (fv,))
 
     def call_class(self, cv, st, args, kwargs, node):
@@ -1188,13 +1192,13 @@ class Executor:
             class _FI:
                 qual = fv.qual
             return self.env.apply_contract(self, st, con, _FI, loc, node)
-        con = self.env.contract_for(fv.qual, self, st, fv, args, kwargs)
         loc = self.bind_params(finfo, fv.self_v, args, kwargs, st)
-        if con is not None and not (self.contract is not None and con is self.contract and False):
-            return self.env.apply_contract(self, st, con, finfo, loc, node)
         if finfo.is_generator:
             # calling a generator function runs nothing: it returns a generator object
             return [self.res(st, st.alloc(HObj("generator", {"g_func": FuncV(fv.qual, fv.self_v), "g_args": STuple(list(loc.values()))})))]
+        con = self.env.contract_for(fv.qual, self, st, fv, args, kwargs)
+        if con is not None and not (self.contract is not None and con is self.contract and False):
+            return self.env.apply_contract(self, st, con, finfo, loc, node)
         if not self.env.may_inline(fv.qual):
             raise Unsupported("call to %s (no contract, not inlinable)" % fv.qual)
         if self.depth > 6:
